@@ -40,7 +40,9 @@ ASSUMPTIONS = ["obs and fcst have equal length", "aggregator-parametrised perfec
 RULE = ("metric.det: obs/fcst vectors of length 0..12 on a 1/8 grid (ties, constants, negatives, zeros, NaNs, "
         "obs=fcst) x 19 modelled metrics x aggregators; metric.small: exhaustive over all pairs of vectors in "
         "{-1,0,1,2}^n, n<=2 (quick) / n<=3 (thorough); metric.decimal: realistic decimals (tolerance); "
-        "metric.perfect: fcst=obs for all 22 metrics; non-trivial = finite reply")
+        "metric.perfect: fcst=obs for all 22 metrics; metric.single: the compute_single layer under -x obs / -x fcst; "
+        "metric.sequence: 3..8 scores one after the other on one Data object, each compared with the model and with "
+        "the same score computed on its own; non-trivial = finite reply")
 EXHAUSTIVE = {"quick": True, "thorough": True}
 EXHAUSTIVE_NOTE = "all vector pairs over {-1,0,1,2}^n for n<=2 (quick), n<=3 (thorough), all modelled metrics"
 LEVEL_TEXT = ("Lean theorems: 17 formula bodies, machine-translated from /repo on every run, equal the textbook "
@@ -126,6 +128,21 @@ def gen_ops(tier, rng):
             ax = rng.choice(["obs", "fcst", "no"]) if m != "within" else "no"
             agg = rng.choice(["mean", "median", "sum", "min", "max"]) if m in ("obs", "fcst", "mae", "bias") else "mean"
             yield "metric.single", "single %s %s %s %s:%s:%d:%d %s %s" % (m, agg, ax, xr(lo), xr(hi), le, ue, xvec(obs), xvec(fcst))
+    # several metrics one after the other on ONE Data object (what a command line with one file and several
+    # scores does): every score is a function of the data, whatever was computed before
+    pool = [m for m in TRANSLATED + HAND if m != "rmsf"]
+    for _ in range(150 if tier == "quick" else 3000):
+        L = rng.choice([2, 3, 5, 8])
+        obs = [rng.choice(GRID) for _ in range(L)]
+        fcst = [rng.choice(GRID) for _ in range(L)]
+        if rng.random() < 0.3:
+            k = rng.randrange(L)
+            (obs if rng.random() < 0.5 else fcst)[k] = float("nan")
+        ms = [rng.choice(pool) for _ in range(rng.choice([2, 3, 4, 6]))]
+        if rng.random() < 0.7:
+            ms.insert(rng.randrange(len(ms)), rng.choice(["derror", "stderror", "cmae", "alphaindex", "nsec"]))
+        ms.append(ms[0])                  # the first score once more, after all the others
+        yield "metric.sequence", "seq %s %s %s" % (xvec(obs), xvec(fcst), ",".join(ms))
 
 
 def impl(op):
@@ -166,7 +183,30 @@ def impl(op):
                 return "EMPTY"
             r = float(r)
             return xr(r)
+        if a[0] == "seq":
+            import verif.axis
+            import datagen as dg
+            obs, fcst = from_xvec(a[1]), from_xvec(a[2])
+            n = len(obs)
+            I = {"times": [0.0], "leads": [float(k) for k in range(n)], "locs": [(1.0, 50.0, 10.0, 0.0)],
+                 "fields": {"obs": np.array(obs, float).reshape(1, n, 1), "fcst": np.array(fcst, float).reshape(1, n, 1)}}
+            data = dg.build_data(dg.DS([I], {}))
+            out = []
+            for name in a[3].split(","):
+                m = verif.metric.get(name)
+                m.aggregator = verif.aggregator.get("mean")
+                try:
+                    out.append(xr(float(m.compute_single(data, 0, verif.axis.No(), None, None))))
+                except Exception as e:       # noqa: a crash of one score must not hide the others
+                    out.append("EXC:%s" % type(e).__name__)
+            return " ".join(out)
     raise ValueError(op)
+
+
+def _seq_items(op):
+    """the stand-alone `det` op of every member of a `seq` op"""
+    a = op.split(" ")
+    return ["det %s mean %s %s" % (m, a[1], a[2]) for m in a[3].split(",")]
 
 
 def _valid(a):
@@ -202,6 +242,9 @@ def cmp(op, impl_out, model_out):
         return True
     if a[0] == "single":
         return impl_out == model_out or _close(impl_out, model_out, 1e-9)
+    if a[0] == "seq":
+        it, mt, items = impl_out.split(" "), model_out.split(" "), _seq_items(op)
+        return len(it) == len(mt) == len(items) and all(cmp(o, x, y) for o, x, y in zip(items, it, mt))
     if a[0] != "det":
         return impl_out == model_out
     if _zero_variance_rounding(a, impl_out):
@@ -264,6 +307,20 @@ def _agg_py(agg, v):
 
 def judge(op, impl_out, spec_out):
     a = op.split(" ")
+    if a[0] == "seq":
+        toks, items = impl_out.split(" "), _seq_items(op)
+        if len(toks) != len(items):
+            return ({"kind": "exception", "metric": "seq"}, "unexpected reply %s" % impl_out[:200])
+        for k, (item, tok) in enumerate(zip(items, toks)):
+            r = judge(item, tok, None)
+            if r:
+                return (dict(r[0], layer="sequence"), "score %d of %s on one Data object: %s" % (k + 1, a[3], r[1]))
+            alone = impl(item)            # the same score computed on its own, from fresh arrays
+            if not (tok == alone or _close(tok, alone, 1e-12)):
+                return ({"kind": "history-dependence", "metric": item.split(" ")[1]},
+                        "%s computed as score %d of the sequence %s on one Data object gives %s, computed on its own %s "
+                        "(obs=%s fcst=%s)" % (item.split(" ")[1], k + 1, a[3], tok, alone, a[1], a[2]))
+        return None
     if a[0] == "single":
         name, agg, rows, inside = _single_oracle(a)
         if impl_out.startswith("EXC:") or impl_out.startswith("EXIT:"):
